@@ -112,19 +112,19 @@ ADD = {
          " Also: (S2) an f-string field that is empty after trimming is rejected in both arms that end the expression text. (E1) no context accepts a wider expression level than reviewed."),
  "C05": ("character-class based classification of the layout arms; end-of-input branch read structurally",
          ""),
- "C06": ("radix forwarding rule over the radix-parameterised lexer functions (R2); bound of the \\N{name} length guard compared with the longest name in the locked unicode_names2 data (N2); evaluation of the backslash arm's guard for each of the seven string kinds (K1); exits of lex_normal_number (Z1)",
+ "C06": ("radix forwarding rule over the radix-parameterised lexer functions (R2); bound of the \\N{name} length guard compared with the longest name in the locked unicode_names2 data (N2); evaluation of the backslash arm's guard for each of the seven string kinds (K1); exits of lex_normal_number (Z1); thorough tier interprets parse_unicode_literal on every 2-digit and every 4-digit hexadecimal escape",
          " Also: (R2) digits, separator look-ahead and value conversion use the literal's own radix; (N2) no known Unicode name is rejected by length. (K1) escapes are decoded exactly in the non-raw kinds; (Z1) multi-digit zeros and zero-led floats/imaginaries keep their values."),
  "C08": ("position comparisons only (nothing may branch on a position) instead of arithmetic tables; character-folding scenarios of next_char; three-way agreement of the feature-gated trivia kinds with the interpreted start_of_line update (S2); evaluation of every match on raw window slots over all windows of {LF, CR, letter, end of input} (N3); expression-level wiring table (E1); G1 regeneration as premise of the grammar-level rules",
          " Also: (N3) wherever the raw window is tested for a line break, LF and a lone CR select the same arm. (E1) acceptance does not depend on redundant parentheses: each context accepts the reviewed level."),
  "C09": ("dimension analysis of TextSize values over MIR value-flow facts replaces the literal/arithmetic site tables: positions vs lengths, no position+position, no length flowing into a position sink (D1); relative-advance rule for the lexer position (N1); entry-point mode consistency (F4)",
          " (D1) replaces the tabled-site wording above: every position is start offset + consumed bytes +/- lengths by dimension analysis; (F4) each typed entry point lexes and parses in its own mode."),
  "C10": ("cfg inventory extended to the grammar file (no cfg on a parse-affecting feature in python.lalrpop)", ""),
- "C11": ("lexical separation of word tokens (literal pieces ending/starting in identifier characters are the reviewed ones; the lambda keyword separator interpreted over parameter-list shapes) (K1); f-string field opening decided on the rendered text, braces doubled (F1); exact integrality test of the float renderer (N1); path enumeration of every unparser arm with the set of fields mentioned per path (R1); evaluation of the infinite-constant guards over finite/infinite components (N2); expression-level wiring table (E1); G1 regeneration as premise",
+ "C11": ("lexical separation of word tokens (literal pieces ending/starting in identifier characters are the reviewed ones; the lambda keyword separator interpreted over parameter-list shapes) (K1); f-string field opening decided on the rendered text, braces doubled (F1); exact integrality test of the float renderer (N1); path enumeration of every unparser arm with the set of fields mentioned per path (R1); evaluation of the infinite-constant guards over finite/infinite components (N2); expression-level wiring table (E1); G1 regeneration as premise; thorough tier: escape layout/writer agreement on every scalar value",
          " Also: (K1/F1) the rendering re-lexes into the intended tokens; (N1) only exact integers take the `<digits>.0` rendering; (A1/A2) string and bytes constants are rendered by the escape module, whose layout pre-pass announces exactly the length its writer emits (partition evaluation shared with C16). (R1) no path through an arm renders the node without looking at every field it binds; (N2) `inf` is never written. (E1) associativity and operand levels of the grammar are the reviewed ones the unparser's precedence table is built against."),
  "C12": ("order-preserving element-wise fold recognised as iterator chain, loop or helper", ""),
  "C13": ("re-basing rule for line-break searches on a tail slice (B1)", " Also: (B1) a position found in `&source[a..]` is re-based by `a` (sibling agreement of init and locate_inner)."),
  "C16": ("interpretation of is_printable with the category predicates as free booleans (P1)", " Also: (P1) printable = not Other and not Separator, depending on nothing else."),
- "C18": ("interpretation of add_magnitude_separators over fill x alignment x width (A3); prefix agreement between the width deduction and the printed prefix (A2); repr exponent window and digits/decimal-point agreement of the float renderer (G1); symbolic evaluation of the locators' map_user / fold_expr_joined_str (result term + call trace) and of locate_only for both outcomes of locate_inner; evaluation of the minus-sign condition on -0.0, +/-inf, +/-NaN (S1); empty results of the spec sub-parsers return their input (P2)",
+ "C18": ("interpretation of add_magnitude_separators over fill x alignment x width (A3); prefix agreement between the width deduction and the printed prefix (A2); repr exponent window and digits/decimal-point agreement of the float renderer (G1); symbolic evaluation of the locators' map_user / fold_expr_joined_str (result term + call trace) and of locate_only for both outcomes of locate_inner; evaluation of the minus-sign condition on -0.0, +/-inf, +/-NaN (S1); empty results of the spec sub-parsers return their input (P2); thorough tier evaluates layout and writer on EVERY Unicode scalar value (x printable x quote) instead of one representative per partition cell",
          " Also: (A2/A3) sign and radix prefix are counted once and grouped digits are zero-extended only under zero padding; (G1) fixed notation exactly for exponents -4..15. locate_only reports the row of the offset's line. (S1) the sign is the sign bit, NaN excepted; (P2) a `.` without digits is left for the caller to reject."),
  "C19": ("idempotent flag accumulation (F1); digits/decimal-point agreement of the float renderer (G1)", " Also: (F1) repeated flag characters keep the flag set; (G1) the `#` point is decided with the digit count that was rendered."),
 }
